@@ -247,6 +247,9 @@ func (cs ContextualSubs) Sanitize(lookupCount uint16) error {
 }
 
 func (rs ReverseChainSingleSubs) Sanitize() error {
+	if rs.coverage == nil {
+		return errors.New("GSUB: missing ReverseChainSingleSubs coverage")
+	}
 	if exp, got := rs.coverage.Len(), len(rs.SubstituteGlyphIDs); exp != got {
 		return fmt.Errorf("GSUB: invalid ReverseChainSingleSubs glyphs count (%d != %d)", exp, got)
 	}
@@ -337,6 +340,9 @@ func (ExtensionPos) isGPOSLookup()         {}
 
 func (sp *SinglePos) Sanitize() error {
 	if f2, isFormat2 := sp.Data.(SinglePosData2); isFormat2 {
+		if f2.coverage == nil {
+			return errors.New("GPOS: missing SinglePos coverage")
+		}
 		if exp, got := f2.coverage.Len(), len(f2.ValueRecords); exp != got {
 			return fmt.Errorf("GPOS: invalid SinglePos values count (%d != %d)", exp, got)
 		}
@@ -385,6 +391,9 @@ func (mp *MarkBasePos) Sanitize() error {
 }
 
 func (mp *MarkLigPos) Sanitize() error {
+	if mp.MarkCoverage == nil || mp.LigatureCoverage == nil {
+		return errors.New("GPOS: missing MarkLigPos coverage")
+	}
 	if exp, got := mp.MarkCoverage.Len(), len(mp.MarkArray.MarkAnchors); exp != got {
 		return fmt.Errorf("GPOS: invalid MarkBasePos marks count (%d != %d)", exp, got)
 	}
